@@ -63,7 +63,7 @@ def exhaustive_info(tier):
 
 
 def plan(tier, seed):
-    n = 450 if tier == "quick" else 4000
+    n = 800 if tier == "quick" else 4000
     nsh = 16
     return [{"n": n, "sub": i} for i in range(nsh)] + \
         [{"kind": "exh2", "size": SIZES[tier], "stride": nsh, "offset": i} for i in range(nsh)]
@@ -92,7 +92,7 @@ def cases(spec, ctx):
         case["caching"] = rng.random() < 0.7
         case["form"] = rng.choice(["set_of", "set_of", "direct_list"])
         case["how"] = rng.choice(["let", "let", "mix"])
-        case["times"] = rng.choice([1, 1, 2, 3])
+        case["times"] = rng.choice([1, 2, 2, 3])
         yield case
 
 
